@@ -513,11 +513,15 @@ pub fn check_duplicate_names(seeds: u64, dir: &Path, case: &Value) -> (Vec<Viola
     let b = "pragma circom 2.1.4;\ntemplate A() {\n    signal input in;\n    signal output out;\n    out <-- in * in * in;\n}\nfunction f(q) {\n    var unused = 1;\n    return q * 2;\n}\n";
     let c = "pragma circom 2.1.4;\ninclude \"a.circom\";\ntemplate C() {\n    signal input in;\n    signal output out;\n    component x = A();\n    x.in <== in;\n    out <== x.out;\n}\n";
     let m = "pragma circom 2.1.4;\ntemplate Main() {\n    signal input in;\n    signal output out;\n    out <== in;\n}\ncomponent main = Main();\n";
+    // A file in which some definitions are rejected (malformed tuple, sugar in a function,
+    // repeated parameter) next to definitions that are fine: which ones are analysed must not
+    // depend on the seed either.
+    let e = "pragma circom 2.1.4;\ntemplate Bad1() {\n    signal input a;\n    signal output b;\n    signal output c;\n    (b, c) <== (a, a, a);\n}\ntemplate Good1() {\n    signal input in;\n    signal output out;\n    out <-- in * in * in;\n}\ntemplate Bad2(n, n) {\n    signal input in;\n}\ntemplate Good2() {\n    signal input in;\n    signal output out;\n    var unused = 1;\n    out <== in;\n}\nfunction bad3(q) {\n    var (x, y) = (q, q);\n    return x;\n}\ntemplate Good3(k) {\n    signal input in;\n    signal output out;\n    out <== in * k;\n}\nfunction good4(q) {\n    return q + 1;\n}\n";
     let _ = std::fs::create_dir_all(dir);
-    for (n, t) in [("a.circom", a), ("b.circom", b), ("c.circom", c), ("m.circom", m)] {
+    for (n, t) in [("a.circom", a), ("b.circom", b), ("c.circom", c), ("m.circom", m), ("e.circom", e)] {
         std::fs::write(dir.join(n), t).expect("write");
     }
-    let scenarios: [&[&str]; 5] = [&["a.circom", "b.circom"], &["b.circom", "a.circom"], &["a.circom", "b.circom", "m.circom"], &["b.circom", "c.circom"], &["c.circom", "b.circom", "m.circom"]];
+    let scenarios: [&[&str]; 7] = [&["a.circom", "b.circom"], &["b.circom", "a.circom"], &["a.circom", "b.circom", "m.circom"], &["b.circom", "c.circom"], &["c.circom", "b.circom", "m.circom"], &["e.circom"], &["e.circom", "m.circom"]];
     let mut out = Vec::new();
     let mut runs = 0u64;
     for (si, args) in scenarios.iter().enumerate() {
